@@ -18,6 +18,8 @@ static bool lib_opens(int fd) {
     lseek(fd, 0, SEEK_SET);
     zckCtx *z = zck_create(); bool ok = zck_init_read(z, fd); zck_free(&z); return ok;
 }
+// the same with the caller pinning the expected checksum type / digest / header length (package-manager style)
+static bool lib_opens_pinned(int fd, const lib::Pins &p) { lseek(fd, 0, SEEK_SET); zckCtx *z = zck_create(); bool ok = lib::open_pinned(z, fd, p); zck_free(&z); return ok; }
 static bool lib_opens_bytes(const Bytes &b) { int fd = lib::mkfd(b); bool ok = lib_opens(fd); close(fd); return ok; }
 
 struct Sample { Bytes file; size_t hdr_len; std::string desc; };
@@ -74,12 +76,21 @@ static void prop(Ctx &c) {
         if (!lib_opens_bytes(m)) { close(fd); c.fail("magic-switch", std::string("switching the identifier to ") + (was_det ? "ZCK1" : "ZHR1") + " alone makes open fail"); }
     }
     uint64_t evals = 0;
+    // opening with the stored values pinned must not weaken the check: every mutant must fail under pinning too
+    lib::Pins pins; { ref::ParseResult p0 = ref::parse(s.file); pins.type = (int)p0.h.hash_type; pins.digest_hex = lib::hex_of(p0.h.header_digest); pins.length = (long)p0.h.total_size; }
+    if (!lib_opens_pinned(fd, pins)) { close(fd); c.fail("pinned-open-fails", "the unmutated sample does not open when its own checksum type, digest and header length are pinned"); }
+    bool pin_all = c.boolean();      // pinned variant: all 255 values for half of the samples, 3 values per position otherwise
     // exhaustive: every header position x every other value
     for (size_t pos = 0; pos < s.hdr_len; pos++) {
         uint8_t orig = s.file[pos];
         for (int v = 0; v < 256; v++) {
             if (v == orig) continue;
             uint8_t b = (uint8_t)v; if (pwrite(fd, &b, 1, pos) != 1) abort();
+            evals++;
+            if ((pin_all || v == (orig ^ 1) || v == (orig ^ 0x80) || v == ((orig + 37) & 255)) && lib_opens_pinned(fd, pins)) {
+                Bytes m = s.file; m[pos] = b; ref::ParseResult pr = ref::parse(m);
+                if (!pr.ok || !pr.h.checksum_ok) { close(fd); c.extra_evals = evals; c.fail("subst-accepted-under-pinning", "header byte " + std::to_string(pos) + " changed from " + std::to_string(orig) + " to " + std::to_string(v) + " and the file still opens when the expected header checksum is pinned (reference: " + pr.reason + ")"); }
+            }
             evals++;
             if (lib_opens(fd)) {
                 // the reference decides whether this mutant's stored checksum still equals the computed one
